@@ -88,4 +88,14 @@ PROPS = {
         ],
         "assumptions": ["SpWF: registered metadata has an SPSSODescriptor (NewServiceProvider refuses metadata without one)"],
     },
+    "C12": {
+        "modules": ["SamlModel.Props.C12"],
+        "translated": ["verifyRequestDestinationOfAttrQuery", "certificateCheckNecessary", "checkCertificate", "signaturePostProvided",
+                       "ServiceProvider_GetEntityID", "Attributes_GetSAML", "Attributes_GetNameID", "getResponseCert"],
+        "trusted_base": COMMON_TRUST + [
+            "Model.AttrQuery is a hand-written model of attributeQueryHandleFunc and of the filter of makeAttributeQueryResponse: tied by theorem C12_source_current (regenerated chain skeleton = snapshot, fingerprints) and by the aq correspondence",
+            "SOAP/XML decoding and XML-DSig validation of the query (ValidateAttributeQuerySignature: etree + goxmldsig) are oracles sampled with real keys",
+        ],
+        "assumptions": ["duplicates in the query may duplicate answer entries; the filter is specified as a set (C12_filter_spec), as the property's quantifier says"],
+    },
 }
